@@ -229,14 +229,14 @@ UPGRADER:
 				return ErrInvalidMethod
 			}
 		case statePathBefore:
-			switch c {
-			case '/', '*':
+			switch {
+			case c == ' ':
+			case c > ' ' && c != 0x7f:
+				// origin-form, asterisk-form, absolute-form (a proxy request)
+				// or authority-form (CONNECT): OnURL decides whether it is valid.
 				start = i
 				p.nextState(statePath)
 				continue
-			}
-			switch c {
-			case ' ':
 			default:
 				return ErrInvalidRequestURI
 			}
